@@ -140,6 +140,32 @@ def value_class(v):
     return "other-string"
 
 
+def missing_required(text):
+    """[(where, attribute)] required by the DTD and absent from the input element itself."""
+    from vf.ref.view import view_xml
+    try:
+        tag, attrs, _, kids = view_xml(text)
+    except Exception:
+        return []
+    out = []
+    spec = G.GRAMMAR.get(tag)
+    if spec is None:
+        return []
+    have = dict(attrs)
+    for a in spec["req"]:
+        if a not in have:
+            out.append(("message", a))
+    for i, k in enumerate(kids or ()):
+        pspec = G.PARTS.get(k[0])
+        if pspec is None:
+            continue
+        khave = dict(k[1])
+        for a in pspec["req"]:
+            if a not in khave:
+                out.append((f"child-{'first' if i == 0 else 'later'}", a))
+    return out
+
+
 def judge(ctx, text, label, case, am=None):
     import indi.message as M
     try:
@@ -157,6 +183,15 @@ def judge(ctx, text, label, case, am=None):
         ctx.violate("result-not-inspectable", f"from_string returned {res!r} which cannot be inspected: {e!r}", case, {"text": text})
         return
     bad = nonconformities(v)
+    if not bad:
+        # the returned object may have been completed from somewhere else: required attributes are judged on the INPUT
+        missing = missing_required(text)
+        if missing:
+            where, attr = missing[0]
+            ctx.violate(f"accepts-input-lacking-required-attribute:{attr}:{where}",
+                        f"from_string accepted an element whose {where} lacks the required attribute {attr!r} (the returned message has it: {v!r:.300})",
+                        dict(case, pert=label), {"text": text, "missing": missing})
+            return
     if bad:
         what, val = bad[0]
         ctx.violate(f"accepts-nonconformant:{what}:{value_class(val)}",
